@@ -2,6 +2,278 @@
 
 package main
 
-import "github.com/theparanoids/ysshra/internal/zzverif/ev"
+import (
+	"encoding/json"
+	"fmt"
+	"strings"
 
-func checkC04(c *ev.Ctx) { c.Cap("not implemented") }
+	"golang.org/x/crypto/ssh"
+
+	"github.com/theparanoids/ysshra/gensign"
+	"github.com/theparanoids/ysshra/internal/zzverif/ev"
+	"github.com/theparanoids/ysshra/internal/zzverif/fix"
+	"github.com/theparanoids/ysshra/internal/zzverif/uagent"
+)
+
+// c04Case is one deviation vector from the all-succeeds default.
+type c04Case struct {
+	Handler    string            // real | stub
+	NCerts     int               // certificates the CA returns per request
+	OldCerts   int               // certificates of an earlier run already in the agent (real handler)
+	NKeys      int               `json:",omitempty"` // stub: agent keys
+	NCSRs      int               `json:",omitempty"` // stub: requests per key
+	AgentFault map[string]string `json:",omitempty"` // request index -> kind
+	CAFault    map[string]string `json:",omitempty"` // call index -> err | panic
+	StubFault  map[string]string `json:",omitempty"` // method -> err | panic | empty | conferr
+	NilAttrs   bool              `json:",omitempty"` // params.Attrs nil: the real handler dereferences it (panic inside a Handler method)
+	NilHandler bool              `json:",omitempty"`
+}
+
+// c04Expect maps the first fault that fired to the error kind the statement demands.
+func c04Expect(first string) string {
+	p := strings.Split(first, ":")
+	switch p[0] {
+	case "":
+		return "nil"
+	case "agent":
+		switch p[1] {
+		case "auth":
+			return "AllAuthFailed"
+		case "generate":
+			return "HandlerGenCSRErr"
+		}
+		return "AgentOpCertErr"
+	case "ca":
+		if p[1] == "panic" {
+			return "Panic"
+		}
+		return "SignerSignErr"
+	case "stub":
+		if p[2] == "panic" {
+			return "Panic"
+		}
+		switch p[1] + ":" + p[2] {
+		case "Generate:err", "Generate:empty":
+			return "HandlerGenCSRErr"
+		case "Generate:conferr":
+			return "HandlerConfErr"
+		case "AddCertsToAgent:err":
+			return "AgentOpCertErr"
+		}
+	case "params":
+		return "Panic"
+	}
+	return "?"
+}
+
+func c04Run(c *ev.Ctx, k c04Case) {
+	c.Eval()
+	e := newEnv(envOpt{KeyDir: "pub", LogName: "alice", Validity: 43200, KeyIDs: map[string]string{"default": "slot"}, Behaviour: "honest", AgentHasKey: true})
+	defer e.close()
+	e.ca.NCerts = k.NCerts
+	e.ca.Comments = []string{"comment-a"}
+	for i := 0; i < k.OldCerts; i++ {
+		old := fix.SSHCert(fix.Pub(fix.Ed(i)), "old", 0, 1<<40, nil, "alice")
+		e.ua.Ring.Add(agentAddedKey{PrivateKey: fix.Ed(i), Certificate: old, Comment: "paranoids.regular-cert"})
+	}
+	preBlobs := map[string]bool{}
+	for _, id := range e.ua.Ring.Keys {
+		preBlobs[string(id.Blob)] = true
+	}
+	for is, kind := range k.AgentFault {
+		var i int
+		fmt.Sscanf(is, "%d", &i)
+		e.ua.Plan[i] = kind
+	}
+	for is, kind := range k.CAFault {
+		var i int
+		fmt.Sscanf(is, "%d", &i)
+		e.ca.Script[i] = kind
+	}
+	var hs []gensign.Handler
+	var stub *stubHandler
+	if k.Handler == "stub" {
+		stub = &stubHandler{name: "stub", accept: true, script: k.StubFault, nKeys: k.NKeys, nCSRs: k.NCSRs, log: &e.log, events: &e.events}
+		if stub.script == nil {
+			stub.script = map[string]string{}
+		}
+		hs = []gensign.Handler{stub}
+	} else {
+		hs = []gensign.Handler{e.handler}
+	}
+	if k.NilHandler {
+		hs = append([]gensign.Handler{nil}, hs...)
+		e.events = append(e.events, "params:nil-handler")
+	}
+	p := defaultParams("alice")
+	if k.NilAttrs {
+		p.Attrs = nil
+		e.events = append(e.events, "params:nil-attrs")
+	}
+	err, esc := e.run(p, hs)
+	if esc != "" {
+		c.Violation("C04:crash:"+ev.PanicSite(esc), "a panic escaped gensign.Run:\n"+esc, k)
+		return
+	}
+	first := ""
+	if len(e.events) > 0 {
+		first = e.events[0]
+	}
+	want := c04Expect(first)
+	got := errType(err)
+	c.Outcome(fmt.Sprintf("%s/first=%s/%s", k.Handler, first, got))
+	if first != "" {
+		c.Nontrivial(ev.JSON(k))
+	}
+	if got != want {
+		c.Violation(fmt.Sprintf("C04:wrong-kind:%s:want=%s:got=%s", faultClass(first), want, got),
+			fmt.Sprintf("first fault %q → run returned %s (%v), the statement demands %s", first, got, err, want), k)
+	}
+	// certificates in the agent vs what the CA signed
+	issued := map[string]bool{}
+	nIssued := 0
+	for _, certs := range e.ca.Issued {
+		for _, ct := range certs {
+			issued[string(ct.Marshal())] = true
+			nIssued++
+		}
+	}
+	if k.Handler == "real" {
+		inAgent := 0
+		for _, id := range e.ua.Ring.Keys {
+			if preBlobs[string(id.Blob)] {
+				continue
+			}
+			pk, perr := ssh.ParsePublicKey(id.Blob)
+			if perr != nil {
+				continue
+			}
+			if _, isCert := pk.(*ssh.Certificate); isCert {
+				inAgent++
+				if !issued[string(id.Blob)] {
+					c.Violation("C04:unsigned-certificate-in-agent", "the agent holds a certificate the CA did not sign in this run", k)
+				}
+			}
+		}
+		if err == nil {
+			if len(e.ca.Reqs) != 1 || nIssued != k.NCerts {
+				c.Violation("C04:success-without-signing", fmt.Sprintf("success reported with %d CA calls and %d certificates issued (want 1 and %d)", len(e.ca.Reqs), nIssued, k.NCerts), k)
+			}
+			if inAgent != nIssued {
+				c.Violation("C04:success-but-certificate-missing", fmt.Sprintf("success reported, CA issued %d certificates, the agent holds %d of them", nIssued, inAgent), k)
+			}
+		}
+	} else if stub != nil {
+		totalCSRs := 0
+		for ki, sk := range stub.Keys {
+			totalCSRs += len(sk.csrs)
+			handed := 0
+			for _, a := range sk.Added {
+				for _, ct := range a {
+					handed++
+					if !issued[string(ct.Marshal())] {
+						c.Violation("C04:unsigned-certificate-in-agent", "a certificate the CA did not sign was handed to the agent", k)
+					}
+				}
+			}
+			// certificates of a key are added only after all its requests were signed
+			if handed > 0 && handed != len(sk.csrs)*k.NCerts {
+				c.Violation("C04:partial-key-added", fmt.Sprintf("key %d: %d certificates handed to the agent, expected all %d or none", ki, handed, len(sk.csrs)*k.NCerts), k)
+			}
+			if err == nil && handed != len(sk.csrs)*k.NCerts {
+				c.Violation("C04:success-but-certificate-missing", fmt.Sprintf("success reported but key %d received %d of %d certificates", ki, handed, len(sk.csrs)*k.NCerts), k)
+			}
+		}
+		if err == nil && len(e.ca.Reqs) != totalCSRs {
+			c.Violation("C04:success-without-signing", fmt.Sprintf("success reported with %d CA calls for %d requests", len(e.ca.Reqs), totalCSRs), k)
+		}
+	}
+}
+
+func faultClass(first string) string {
+	p := strings.Split(first, ":")
+	if len(p) >= 2 {
+		return p[0] + ":" + p[1]
+	}
+	return first
+}
+
+func checkC04(c *ev.Ctx) {
+	defer cleanupScratch()
+	c.Rule("deviation-bounded fault enumeration over the real gensign.Run: default = everything succeeds; deviations = {failure, close, empty, unknown type, truncated, oversized} at every forwarded-agent request index (challenge, private-key add, list, removes, certificate adds) for CA replies of 1..3 certificates and 0/2 certificates of an earlier run; CA error/panic at every call; stub-handler faults in Name/Authenticate/Generate/CSRs/AddCertsToAgent for 1..2 keys x 1..2 requests; nil attributes / nil handler (panic inside the handler loop). quick: every single deviation; thorough: every pair. Oracle: error-kind table from the statement keyed by the first fault that fired. non-trivial = run in which a fault fired; distinct by deviation vector")
+	c.Assume("well-formed agent replies of the wrong message type are excluded (x/crypto's client panics on them by design; gensign.Run's recover turns that into a Panic error, which is checked separately below)")
+	if c.ReplayCase != nil {
+		var k c04Case
+		json.Unmarshal(c.ReplayCase, &k)
+		c04Run(c, k)
+		return
+	}
+	var cases []c04Case
+	kinds := uagent.AllFaults
+	type dev struct{ where, idx, kind string }
+	for _, nc := range []int{1, 2, 3} {
+		for _, old := range []int{0, 2} {
+			nReq := 3 + old + nc // sign, add key, list, removes, certificate adds
+			cases = append(cases, c04Case{Handler: "real", NCerts: nc, OldCerts: old})
+			var devs []dev
+			for i := 0; i < nReq+1; i++ {
+				for _, kd := range kinds {
+					devs = append(devs, dev{"agent", fmt.Sprint(i), kd})
+				}
+			}
+			devs = append(devs, dev{"ca", "0", "err"}, dev{"ca", "0", "panic"})
+			mk := func(ds ...dev) c04Case {
+				k := c04Case{Handler: "real", NCerts: nc, OldCerts: old, AgentFault: map[string]string{}, CAFault: map[string]string{}}
+				for _, d := range ds {
+					if d.where == "agent" {
+						k.AgentFault[d.idx] = d.kind
+					} else {
+						k.CAFault[d.idx] = d.kind
+					}
+				}
+				return k
+			}
+			for i, d := range devs {
+				cases = append(cases, mk(d))
+				if c.Thorough() {
+					for _, d2 := range devs[i+1:] {
+						if d2.where == d.where && d2.idx == d.idx {
+							continue
+						}
+						cases = append(cases, mk(d, d2))
+					}
+				}
+			}
+		}
+	}
+	cases = append(cases, c04Case{Handler: "real", NCerts: 1, NilAttrs: true}, c04Case{Handler: "real", NCerts: 1, NilHandler: true}, c04Case{Handler: "stub", NCerts: 1, NKeys: 1, NCSRs: 1, NilHandler: true})
+	for _, nk := range []int{1, 2} {
+		for _, ncsr := range []int{1, 2} {
+			for _, nc := range []int{1, 2} {
+				cases = append(cases, c04Case{Handler: "stub", NCerts: nc, NKeys: nk, NCSRs: ncsr})
+				for _, sf := range [][2]string{{"Name", "panic"}, {"Authenticate", "panic"}, {"Generate", "err"}, {"Generate", "conferr"}, {"Generate", "empty"}, {"Generate", "panic"},
+					{"CSRs", "panic"}, {"AddCertsToAgent", "err"}, {"AddCertsToAgent", "panic"}} {
+					cases = append(cases, c04Case{Handler: "stub", NCerts: nc, NKeys: nk, NCSRs: ncsr, StubFault: map[string]string{sf[0]: sf[1]}})
+				}
+				for j := 0; j < nk*ncsr; j++ {
+					for _, kd := range []string{"err", "panic"} {
+						cases = append(cases, c04Case{Handler: "stub", NCerts: nc, NKeys: nk, NCSRs: ncsr, CAFault: map[string]string{fmt.Sprint(j): kd}})
+						if c.Thorough() {
+							cases = append(cases, c04Case{Handler: "stub", NCerts: nc, NKeys: nk, NCSRs: ncsr, CAFault: map[string]string{fmt.Sprint(j): kd}, StubFault: map[string]string{"AddCertsToAgent": "err"}})
+						}
+					}
+				}
+			}
+		}
+	}
+	c.Set("deviation_vectors", len(cases))
+	for i, k := range cases {
+		if c.Expired("deviation vectors") {
+			break
+		}
+		c04Run(c, k)
+		if i%(len(cases)/5+1) == 2 {
+			c.Sample(k)
+		}
+	}
+}
